@@ -105,7 +105,7 @@ def recovery(src, n=2, faults=1, delays=0, rounds=6, closing=12, configs=('LIST+
                     (src.pick_int('fault1_round', 4, 5), 0, src.pick('fault1_kind', kinds))]
         cl, cfg, plan, senders, traces = CC.run_schedule(src, n=n, rounds=8, closing=closing, configs=configs,
                                                          fences=fences, failures=failures, plan_fn=plan_fn,
-                                                         rules=rules, release_at=release)
+                                                         rules=rules, release_at=release, eager=(False, True))
         sig = 'distribution:' + '+'.join(k[0] for _, _, k in plan)
     elif split_brain:
         # a partition of 1..split_brain rounds (each side keeps or elects its Master) that heals
